@@ -70,11 +70,18 @@ theorem offset_dtype_partial :
       knownExcluded r d q = false → knownOffsetExcluded r fk d = false → verdictO fk r d q = true := by
   decide +kernel
 
+example : FactorKind.npfloat 8 ∈ factorKinds ∧ Route.to ∈ Route.sameDim ∧ (⟨.f, 4⟩ : Dtype) ∈ scope
+    ∧ knownExcluded .to ⟨.f, 4⟩ false = false ∧ knownOffsetExcluded .to (.npfloat 8) ⟨.f, 4⟩ = false := by
+  decide +kernel
+
 /-- the guard is tight: every excluded cell really violates -/
 theorem offset_excluded_is_tight :
     ∀ fk ∈ factorKinds, ∀ r ∈ Route.sameDim, ∀ d ∈ scope, ∀ q ∈ [false, true],
       knownOffsetExcluded r fk d = true → verdictO fk r d q = false := by
   decide +kernel
+
+example : knownOffsetExcluded .inBase (.npfloat 8) ⟨.i, 2⟩ = true ∧ knownOffsetExcluded .inBase (.npfloat 8) ⟨.f, 8⟩ = false
+    ∧ knownOffsetExcluded .inBase .pyfloat ⟨.f, 2⟩ = false := by decide
 
 /-- witness: float32 degC data, `in_base("planck")` → float64 (the in-place route keeps float32) -/
 theorem in_base_offset_counterexample :
